@@ -84,7 +84,7 @@ WGS84Coordinates LambertConverter::toWGS84(const Eigen::Vector2d & position) con
 {
   double rho = std::sqrt(std::pow(position.x() - xs_, 2) + std::pow(position.y() - ys_, 2));
   double theta = std::atan((position.x() - xs_) / (ys_ - position.y()));
-  return{computeLatitude(-std::log(rho / c_) / n_, e_), longitude0_ + theta / n_};
+  return{computeLatitude(-std::log(rho / std::abs(c_)) / n_, e_), longitude0_ + theta / n_};
 }
 
 //-----------------------------------------------------------------------------
